@@ -1,0 +1,77 @@
+// Fault injection points for verification. Only compiled with `--cfg clockbound_verif`.
+//
+// The harness arms at most one plan: the `nth` time the point `name` is reached the calling
+// thread either panics or is told to return from the function it is in. Unarmed, `hit` is a
+// counter increment and nothing else.
+
+use std::collections::HashMap;
+use std::sync::Mutex;
+
+#[derive(Debug, Clone, Copy, PartialEq, Eq)]
+pub enum Fault {
+    Panic,
+    Return,
+}
+
+struct Plan {
+    name: String,
+    nth: u64,
+    fault: Fault,
+}
+
+struct State {
+    plan: Option<Plan>,
+    counts: HashMap<String, u64>,
+    fired: bool,
+}
+
+static STATE: Mutex<Option<State>> = Mutex::new(None);
+
+/// Arm a plan (or disarm with `None`) and reset all counters.
+pub fn arm(plan: Option<(&str, u64, Fault)>) {
+    let mut st = STATE.lock().unwrap_or_else(|e| e.into_inner());
+    *st = Some(State {
+        plan: plan.map(|(name, nth, fault)| Plan { name: name.to_owned(), nth, fault }),
+        counts: HashMap::new(),
+        fired: false,
+    });
+}
+
+/// Whether the armed plan has fired, and how often each point was reached.
+pub fn report() -> (bool, Vec<(String, u64)>) {
+    let st = STATE.lock().unwrap_or_else(|e| e.into_inner());
+    match st.as_ref() {
+        Some(s) => {
+            let mut v: Vec<_> = s.counts.iter().map(|(k, v)| (k.clone(), *v)).collect();
+            v.sort();
+            (s.fired, v)
+        }
+        None => (false, Vec::new()),
+    }
+}
+
+/// Returns true when the caller must return; panics when the plan says so.
+pub fn hit(name: &str) -> bool {
+    let fault = {
+        let mut st = STATE.lock().unwrap_or_else(|e| e.into_inner());
+        let s = match st.as_mut() {
+            Some(s) => s,
+            None => return false,
+        };
+        let c = s.counts.entry(name.to_owned()).or_insert(0);
+        let seen = *c;
+        *c += 1;
+        match &s.plan {
+            Some(p) if !s.fired && p.name == name && p.nth == seen => {
+                s.fired = true;
+                Some(p.fault)
+            }
+            _ => None,
+        }
+    };
+    match fault {
+        Some(Fault::Panic) => panic!("verif fault injected at {}", name),
+        Some(Fault::Return) => true,
+        None => false,
+    }
+}
